@@ -71,5 +71,11 @@ TEXTS = {
         level_text="Fault enumeration over every destroy source state x flag combination and every creation failure stage as fixed cases on each run, plus generated combinations (~100 quick, ~3000 thorough). Checks the real TeardownEnvironment / DestroyEnvironment / CreateEnvironment cleanup paths end to end.",
         level_note="Whether kept tasks are killed on the server's forced paths and whether every DESTROY hook runs are deliberately not claimed (not in the statement); goroutine leaks are read from net/http/pprof served by simcore.",
     ),
+    "C18": dict(
+        engine="simworld",
+        technique="property-based crash-point / fault injection (rapid): SIGKILL of the real core at generated points of an environment's life followed by a restart against the surviving simulated master and Consul, and generated sequences of dropped subscription streams; oracle over the master's call log (SUBSCRIBE identity, RECONCILE, KILL per surviving task) and the new instance's API",
+        level_text="Fault enumeration: every crash point and every reconnect point is run as a fixed case on each run, plus generated combinations (tasks, environments, number of drops). The restart path exercised is the real one: stored framework id, subscription, implicit reconciliation, kill of unknown tasks.",
+        level_note="Crash = SIGKILL of the core process (no graceful shutdown); the simulated master's reconciliation answer follows Mesos' implicit reconciliation (one update per non-terminal task).",
+    ),
 }
 NA_REASONS = {}
